@@ -33,7 +33,7 @@ type cmPoint struct {
 }
 
 func (p cmPoint) env() map[string]interface{} {
-	return map[string]interface{}{"host": p.host, "region": p.region, "value": p.value, "flag": p.value > 5}
+	return map[string]interface{}{"host": p.host, "region": p.region, "value": p.value, "flag": p.value > 5, "time_idle": p.value, "Timestamp_ms": p.value, "timeout": p.host}
 }
 
 var cmNow = time.Date(2000, 1, 1, 12, 0, 0, 0, time.UTC)
@@ -128,6 +128,9 @@ func cmNonTimeAtoms() []cmAtom {
 		{text: "(flag != true OR true = flag)", eval: func(p cmPoint) bool { return true }},
 		{text: "flag != true", eval: func(p cmPoint) bool { return !(p.value > 5) }},
 		{text: "(value::integer > 5 OR region::tag = 'x')", eval: func(p cmPoint) bool { return p.value > 5 || p.region == "x" }},
+		// fields whose names begin like the time column's: ordinary predicates
+		{text: "time_idle > 5", eval: func(p cmPoint) bool { return p.value > 5 }},
+		{text: "(\"Timestamp_ms\" = 5 OR timeout = 'b')", eval: func(p cmPoint) bool { return p.value == 5 || p.host == "b" }},
 	}
 }
 
